@@ -228,9 +228,9 @@ func main() {
 		mu.Unlock()
 	}
 
-	nSched, nMal, nConc, nRaft := 1200, 200, 160, 0
+	nSched, nMal, nConc, nRaft := 1200, 200, 450, 150
 	if *tier == "thorough" {
-		nSched, nMal, nConc, nRaft = 12000, 2000, 1500, 500
+		nSched, nMal, nConc, nRaft = 12000, 2000, 3000, 1000
 	}
 	if *oSched >= 0 {
 		nSched, nMal = *oSched, *oSched/6
